@@ -17,28 +17,38 @@ INMOD = os.path.join(VERIF, "harness", "inmod")
 CRATE = os.path.join(VERIF, "harness", "crate", "src")
 SHIMS = os.path.join(VERIF, "harness", "shims")
 
-HARNESS_RE = re.compile(r"vk_harness!\(\s*([A-Za-z0-9_]+)\s*,")
+HARNESS_RE = re.compile(r"\b\w*harness!\(\s*([A-Za-z0-9_]+)\s*,")
 META_RE = re.compile(r"^\s*//@\s*([a-z_]+)\s*:\s*(.*?)\s*$")
 
 
 def parse_harness_file(path):
-    """Returns list of dicts: name + //@ metadata lines that precede each vk_harness!."""
-    out, meta = [], {}
+    """Returns list of dicts: name + //@ metadata lines that precede each harness.
+    A harness is declared either by a `..harness!(name, ..)` macro line or, for macro-generated harnesses,
+    by an explicit `//@ harness: name` line that closes its metadata block."""
+    out, meta, seen = [], {}, set()
     for line in open(path):
         m = META_RE.match(line)
         if m:
             k, v = m.group(1), m.group(2)
-            if k in meta and k in ("encodes", "bounds", "stubs", "outside"):
+            if k == "harness":
+                d = dict(meta)
+                d["name"] = v
+                d["file"] = path
+                out.append(d)
+                seen.add(v)
+                meta = {}
+            elif k in meta and k in ("encodes", "bounds", "stubs", "outside"):
                 meta[k] += "; " + v
             else:
                 meta[k] = v
             continue
         h = HARNESS_RE.search(line)
-        if h:
+        if h and h.group(1) not in seen:
             d = dict(meta)
             d["name"] = h.group(1)
             d["file"] = path
             out.append(d)
+            seen.add(h.group(1))
             meta = {}
     return out
 
